@@ -356,6 +356,11 @@ func verifParseSkeleton(s *State, aclName string, withACL bool) *Config {
 // verifBuildIOSConfig builds a configuration whose ACL consists of the
 // symbolic lines given by menu indices.
 func verifBuildIOSConfig(s *State, mn *verifMenu, aclName string, lines []string) *Config {
+	return verifBuildIOSConfigSeq(s, mn, aclName, lines, nil)
+}
+
+// seqs: sequence numbers shown by the device (IOS-XE >= 16.12) or nil.
+func verifBuildIOSConfigSeq(s *State, mn *verifMenu, aclName string, lines []string, seqs []int) *Config {
 	cf := verifParseSkeleton(s, aclName, true)
 	head := cf.lookup["ip access-list extended"][aclName][0]
 	head.sub = nil
@@ -365,6 +370,9 @@ func verifBuildIOSConfig(s *State, mn *verifMenu, aclName string, lines []string
 		action, _, _ := strings.Cut(parsed, " ")
 		typ := mn.typ[vf.FixString(action)]
 		c := &cmd{typ: typ, orig: line, parsed: parsed, subCmdOf: head}
+		if seqs != nil {
+			c.seq = seqs[len(head.sub)]
+		}
 		head.sub = append(head.sub, c)
 	}
 	return cf
@@ -411,6 +419,17 @@ func (m *verifIOSModel) aclLines(key string) (string, []string) {
 	return name, lines
 }
 
+func (m *verifIOSModel) aclSeqs(name string, xe bool) []int {
+	if !xe {
+		return nil
+	}
+	var l []int
+	for _, e := range m.acls[name] {
+		l = append(l, e.seq)
+	}
+	return l
+}
+
 // VerifIOSACL is the converge harness for IOS ACLs.
 func VerifIOSACL(cmdInfo string) {
 	N, _ := strconv.Atoi(vf.Param("N", "2"))
@@ -433,13 +452,23 @@ func VerifIOSACL(cmdInfo string) {
 	bLines := verifPickLines("b", m, mn)
 	verifNoDup(mn, aLines)
 	verifNoDup(mn, bLines)
-	aName := "e0_in"
-	if vf.Bool("deviceHasGeneratedName") {
-		aName = "e0_in-DRC-0"
+	flags := vf.Param("flags", "")
+	aName := "e0_in-DRC-0"
+	if strings.Contains(flags, "name") && !vf.Bool("deviceHasGeneratedName") {
+		aName = "e0_in"
 	}
 	bName := "e0_in"
 
-	confA := verifBuildIOSConfig(s, mn, aName, aLines)
+	// IOS-XE >= 16.12 shows sequence numbers in the configuration
+	xe := strings.Contains(flags, "xe") && vf.Bool("deviceShowsSequenceNumbers")
+	var aSeqs []int
+	if xe {
+		for i := range aLines {
+			aSeqs = append(aSeqs, 10*(i+1))
+		}
+		vf.Cover("device shows sequence numbers")
+	}
+	confA := verifBuildIOSConfigSeq(s, mn, aName, aLines, aSeqs)
 	confB := verifBuildIOSConfig(s, mn, bName, bLines)
 	if err := s.GetChanges(confA, confB); err != nil {
 		vf.Assert(false, "C02: GetChanges failed on accepted input: "+err.Error())
@@ -531,6 +560,13 @@ func VerifIOSACL(cmdInfo string) {
 		k = vf.Int("cut", 0, len(changes))
 	}
 	for i, c := range changes[:k] {
+		if cut && i == k-1 && strings.Contains(c, "\n") && vf.Bool("cutBetweenHalvesOfJoinedLine") {
+			// the connection broke between the two commands of a replacement
+			first, _, _ := strings.Cut(c, "\n")
+			model.exec(first)
+			vf.Cover("cut between the halves of a replacement")
+			break
+		}
 		model.execStep(c)
 		// C14: a packet on which old and new ACL agree keeps that verdict
 		now := model.verdict(key, p)
@@ -544,7 +580,7 @@ func VerifIOSACL(cmdInfo string) {
 		name2, lines2 := model.aclLines(key)
 		s2 := &State{Model: "IOS"}
 		s2.SetupParser(cmdInfo)
-		confA2 := verifBuildIOSConfigFromModel(s2, mn, model, name2, lines2)
+		confA2 := verifBuildIOSConfigFromModel(s2, mn, model, name2, lines2, xe)
 		confB2 := verifBuildIOSConfig(s2, mn, bName, bLines)
 		if err := s2.GetChanges(confA2, confB2); err != nil {
 			vf.Assert(false, "C10: GetChanges failed on partially changed device: "+err.Error())
@@ -565,7 +601,7 @@ func VerifIOSACL(cmdInfo string) {
 	name3, lines3 := model.aclLines(key)
 	s3 := &State{Model: "IOS"}
 	s3.SetupParser(cmdInfo)
-	confA3 := verifBuildIOSConfigFromModel(s3, mn, model, name3, lines3)
+	confA3 := verifBuildIOSConfigFromModel(s3, mn, model, name3, lines3, xe)
 	confB3 := verifBuildIOSConfig(s3, mn, bName, bLines)
 	if err := s3.GetChanges(confA3, confB3); err != nil {
 		vf.Assert(false, lbl+": second compare failed: "+err.Error())
@@ -576,8 +612,8 @@ func VerifIOSACL(cmdInfo string) {
 
 // verifBuildIOSConfigFromModel converts the model state back into a device
 // configuration (all ACLs of the model, binding of Ethernet0).
-func verifBuildIOSConfigFromModel(s *State, mn *verifMenu, model *verifIOSModel, bound string, lines []string) *Config {
-	cf := verifBuildIOSConfig(s, mn, bound, lines)
+func verifBuildIOSConfigFromModel(s *State, mn *verifMenu, model *verifIOSModel, bound string, lines []string, xe bool) *Config {
+	cf := verifBuildIOSConfigSeq(s, mn, bound, lines, model.aclSeqs(bound, xe))
 	for _, name := range model.aclOrder {
 		if name == bound {
 			continue
@@ -589,7 +625,7 @@ func verifBuildIOSConfigFromModel(s *State, mn *verifMenu, model *verifIOSModel,
 		for _, e := range model.acls[name] {
 			ll = append(ll, e.line)
 		}
-		other := verifBuildIOSConfig(s, mn, name, ll)
+		other := verifBuildIOSConfigSeq(s, mn, name, ll, model.aclSeqs(name, xe))
 		cf.lookup["ip access-list extended"][name] = other.lookup["ip access-list extended"][name]
 	}
 	return cf
